@@ -66,7 +66,7 @@ def model_explore(path, depth, shuffle, names):
                            capture_output=True, text=True, timeout=900)
     except subprocess.TimeoutExpired:
         return None, False
-    lines = common.parse_json_lines(r.stdout.splitlines())
+    lines = common.parse_json_lines(r.stdout.split("\n"))
     if not lines:
         return None, False
     return lines[:-1], bool(lines[-1].get("complete"))
